@@ -54,17 +54,17 @@ def intfNotationResult (env : Env) (sc : Scope) (eng : Engine) (obj : ScopeObj) 
     | none => []
   parseNotations env sc eng validOpsIntf notations newOptions
 
-/-- **the loop body of `findConvergenEntries` follows the source**: only interfaces, only those of
+/-- **the loop body of `findConvergenEntries` follows the source**: only declared types, only interfaces, only those of
 the setup file, only those named `Convergen` or marked `:convergen`; a notation error ends the run;
 everything else becomes an entry (C17) -/
 theorem entryStep_follows_source (env : Env) (sc : Scope) (eng : Engine) (intfName : String) (obj : ScopeObj)
     (st : PState) :
     entryStep env sc eng intfName obj st =
-      entryStepOn env sc eng obj st (Generated.Decisions.entryStep obj.isInterface (!obj.inSetupFile)
+      entryStepOn env sc eng obj st (Generated.Decisions.entryStep obj.isType obj.isInterface (!obj.inSetupFile)
         (obj.name == intfName) (docHasConvergen st obj) (st.docs.docOn obj.docChain).isSome
         (match intfNotationResult env sc eng obj st with | .ok _ => false | _ => true)) := by
   unfold entryStep isTargetIntf Generated.Decisions.entryStep intfNotationResult
-  cases hi : obj.isInterface <;> cases hs : obj.inSetupFile <;> cases hn : (obj.name == intfName) <;>
+  cases ht : obj.isType <;> cases hi : obj.isInterface <;> cases hs : obj.inSetupFile <;> cases hn : (obj.name == intfName) <;>
     cases hd : docHasConvergen st obj <;> simp [entryStepOn]
   all_goals
     cases hdoc : st.docs.docOn obj.docChain with
